@@ -80,7 +80,14 @@ func ForwardReorder(tier string, ipid, echo uint32) []proto.Item {
 						// probe 5+k is sent 10k ms after probe 5 and reaches the target at 40ms + rank*gap
 						s.Hops[5+k] = proto.HopSpec{ForwardDelayUs: 40000 + p[k]*gap - k*10000, DelayUs: 4000}
 					}
-					items = append(items, proto.Item{Scn: s, Class: fmt.Sprintf("%s/forward-reorder/init-%x", v, a)})
+					items = append(items, proto.Item{Scn: s, Class: fmt.Sprintf("%s/forward-reorder/init-%x", v, a), Note: map[string]string{"want_len": "5"}})
+					if gap == 15000 {
+						// the same with the middle probe lost on the way: the hole between 5 and 7 never fills, every
+						// duplicate ACK carries two blocks
+						s2 := s
+						s2.Hops = map[int]proto.HopSpec{5: s.Hops[5], 6: {Silent: true}, 7: s.Hops[7]}
+						items = append(items, proto.Item{Scn: s2, Class: fmt.Sprintf("%s/forward-reorder/middle-probe-lost/init-%x", v, a), Note: map[string]string{"want_len": "5"}})
+					}
 				}
 			}
 		}
